@@ -207,11 +207,37 @@ static void run_reserved(uint64_t idx) {
   H->cls(std::string("reserved|") + PRE[idx / 10]);
 }
 
+
+// ---- space "cwrite": numbers written through the C wrapper (type tags INT / DOUBLE) and through the C++ template writers must
+// leave the same string in the store, and an integer must come back exactly from every typed reader, before and after a round trip
+static void run_cwrite(uint64_t idx) {
+  static const int IV[] = {0, 1, -1, 42, 999999, 1000000, 1234567, -1234567, 2147483647, -2147483647 - 1, 100000000};
+  static const double DV[] = {0.5, -2.25, 1e6, 1234567.0, 1e-7, -2.5e10, 1.0 / 3.0, 0.0};
+  bool isint = idx < 11; std::string where = isint ? vf::fmt("[C write_key INT %d]", IV[idx]) : vf::fmt("[C write_key DOUBLE %.17g]", DV[idx - 11]); H->hint(where);
+  tg::TableSpec spec; spec.dims.push_back({2, tg::make_knots(tg::K_UNIFORM, 2, 8)}); spec.coeffs = tg::make_coeffs(1, spec.ncoeffs(), 3, 0);
+  Table a, b; tg::build(a, spec); tg::build(b, spec);
+  struct splinetable st; st.data = &a; int rc;
+  if (isint) { int v = IV[idx]; rc = splinetable_write_key(&st, SPLINETABLE_INT, "NUMBER", &v); b.write_key("NUMBER", v); }
+  else { double v = DV[idx - 11]; rc = splinetable_write_key(&st, SPLINETABLE_DOUBLE, "NUMBER", &v); b.write_key("NUMBER", v); }
+  H->count("evaluations");
+  if (rc != 0) { H->violation("C-write_key-fails-for-a-number", where); return; }
+  const char* sa = a.get_aux_value("NUMBER"); const char* sb = b.get_aux_value("NUMBER");
+  if (!sa || !sb || strcmp(sa, sb)) H->violation(std::string("C-write_key-stores-a-different-string-than-the-C++-writer:") + (isint ? "int" : "double"), where + " C '" + (sa ? sa : "(null)") + "' C++ '" + (sb ? sb : "(null)") + "'");
+  for (int pass = 0; pass < 2; pass++) {
+    Table* t = &a; Table u;
+    if (pass) { auto buf = a.write_fits_mem(); u.read_fits_mem(buf.first, buf.second); free(buf.first); t = &u; }
+    if (isint) { int got = 12345; struct splinetable s2; s2.data = t; int cg = 54321;
+      if (!t->read_key("NUMBER", got) || got != IV[idx]) H->violation("integer-not-recovered-exactly", where + vf::fmt(" read_key<int> gave %d%s", got, pass ? " after a round trip" : ""));
+      if (splinetable_read_key(&s2, SPLINETABLE_INT, "NUMBER", &cg) != 0 || cg != IV[idx]) H->violation("integer-not-recovered-exactly:C-read_key", where + vf::fmt(" gave %d%s", cg, pass ? " after a round trip" : "")); }
+  }
+  H->cls(isint ? "cwrite|int" : "cwrite|double");
+}
+
 int main(int argc, char** argv) {
   vf::Harness h("C16", argc, argv);
   H = &h;
   h.meta("level", "model_checking");
-  h.meta("rule", "breadth-first search to a FIXPOINT over the auxiliary-key store of a real table (populated 1-d table, and an empty one): state = ordered list of (key, value without trailing blanks); operations: write_key of every (key, value) of the alphabet (accepted keys: short, 8-character, long/HIERARCH; values: int, double, empty string, short string, string with a quote, [thorough: negative int, 40 quotes, embedded blanks], the maximal length for the key and one more), write_key with 12 keys that must be rejected (reserved prefixes, lower case, punctuation, '=', empty, leading / trailing blank, 67 characters), remove_key of present and absent keys, and a FITS round trip (write_fits_mem + read_fits_mem into a fresh table, continuing on it); because the value set is finite the search covers histories of every length; each transition replays the shortest history on a fresh object; oracle = insertion-ordered reference map stepped in lock-step: exceptions, return values, store size, key order, get_aux_value, string / int / double typed reads, C get_key / read_key, for every key of the alphabet after every transition; space 'cards' (one step on a fresh populated table, then a round trip): key length in {1,2,7,8,9,10,11,20,40,65,66,67,68,80,200} x {clean, one character replaced at the first / middle / last position by blank . - _ a = ' / TAB 0x01 0x7f 0xe9} x value of encoded length {0, 1, capacity-1, capacity, capacity+1} x {plain, leading quote, all quotes, leading blank, embedded TAB, embedded 0xe9}: accepted exactly when the model accepts, store unchanged on rejection, every accepted entry found under its key with its value after write_fits_mem + read_fits_mem; space 'reserved': the eight reserved prefixes x ten continuations (none, digits, letters, long HIERARCH-length tails, with blank / underscore) through the string, int and double writers and the C writer: refused, store unchanged");
+  h.meta("rule", "breadth-first search to a FIXPOINT over the auxiliary-key store of a real table (populated 1-d table, and an empty one): state = ordered list of (key, value without trailing blanks); operations: write_key of every (key, value) of the alphabet (accepted keys: short, 8-character, long/HIERARCH; values: int, double, empty string, short string, string with a quote, [thorough: negative int, 40 quotes, embedded blanks], the maximal length for the key and one more), write_key with 12 keys that must be rejected (reserved prefixes, lower case, punctuation, '=', empty, leading / trailing blank, 67 characters), remove_key of present and absent keys, and a FITS round trip (write_fits_mem + read_fits_mem into a fresh table, continuing on it); because the value set is finite the search covers histories of every length; each transition replays the shortest history on a fresh object; oracle = insertion-ordered reference map stepped in lock-step: exceptions, return values, store size, key order, get_aux_value, string / int / double typed reads, C get_key / read_key, for every key of the alphabet after every transition; space 'cards' (one step on a fresh populated table, then a round trip): key length in {1,2,7,8,9,10,11,20,40,65,66,67,68,80,200} x {clean, one character replaced at the first / middle / last position by blank . - _ a = ' / TAB 0x01 0x7f 0xe9} x value of encoded length {0, 1, capacity-1, capacity, capacity+1} x {plain, leading quote, all quotes, leading blank, embedded TAB, embedded 0xe9}: accepted exactly when the model accepts, store unchanged on rejection, every accepted entry found under its key with its value after write_fits_mem + read_fits_mem; space 'reserved': the eight reserved prefixes x ten continuations (none, digits, letters, long HIERARCH-length tails, with blank / underscore) through the string, int and double writers and the C writer: refused, store unchanged; space 'cwrite': eleven integers (up to INT_MAX / INT_MIN) and eight doubles through the C wrapper's typed writer: same stored string as the C++ writer, integers recovered exactly by read_key<int> and the C reader before and after a round trip");
   h.meta("assumption", "key alphabet of 2 (quick) / 3 (thorough) accepted keys; value trailing blanks are not part of the state (the property allows a round trip to add them)");
   h.meta("require_states", "50");
   h.meta("deadline_quick", "900"); h.meta("deadline_thorough", "3000");
@@ -220,5 +246,6 @@ int main(int argc, char** argv) {
   h.add_space("stores", 2, [full](uint64_t i) { explore(i == 0, full); });
   h.add_space("cards", 15ull * 13 * 3 * 5 * 6, run_card);
   h.add_space("reserved", 80, run_reserved);
+  h.add_space("cwrite", 19, run_cwrite);
   return h.main();
 }
